@@ -27,7 +27,8 @@ def fl(v):
 
 def tokval(t):
     kind, v = str(t[0]), int(t[1])
-    import numpy as np
+    if kind == "big":
+        return 2 ** v + int(t[2])
 
     return {"int": v, "bool": bool(v), "float": float(v), "str": str(v), "none": None}[kind]
 
